@@ -13,13 +13,16 @@ type TWCCModel struct {
 	Base          uint16
 	RefTime       uint32 // 24 bit
 	FbCount       uint8
-	Status        []uint8 // 0 not received, 1 small delta, 2 large delta
-	Deltas        []int64 // units of 250 µs, one per status != 0, in order
+	// NoPFlag: the caller-supplied header leaves the padding bit clear although the content is
+	// padded to 32 bits with zero octets (the draft's "zero padding"; length field counts it).
+	NoPFlag bool
+	Status  []uint8 // 0 not received, 1 small delta, 2 large delta
+	Deltas  []int64 // units of 250 µs, one per status != 0, in order
 }
 
 // TWCCModelGen draws a model. Lengths 0…600 (a few longer unless NoBig/Small).
 func TWCCModelGen(r *core.Rand, o Opts) *TWCCModel {
-	m := &TWCCModel{Sender: r.B32(), Media: r.B32(), Base: r.B16(), RefTime: r.B32() & 0xFFFFFF, FbCount: r.B8()}
+	m := &TWCCModel{Sender: r.B32(), Media: r.B32(), Base: r.B16(), RefTime: r.B32() & 0xFFFFFF, FbCount: r.B8(), NoPFlag: r.Chance(1, 4)}
 	var n int
 	switch r.Intn(10) {
 	case 0:
@@ -170,7 +173,7 @@ func (m *TWCCModel) Value(chunks []rtcp.PacketStatusChunk) *rtcp.TransportLayerC
 	}
 	pad := (4 - size%4) % 4
 	size += pad
-	t.Header = rtcp.Header{Padding: pad > 0, Count: 15, Type: 205, Length: uint16(size/4 - 1)}
+	t.Header = rtcp.Header{Padding: pad > 0 && !m.NoPFlag, Count: 15, Type: 205, Length: uint16(size/4 - 1)}
 	return t
 }
 
